@@ -639,6 +639,9 @@ class AsyncFIXConnection:
             if is_sess_msg or not await self.should_replay(replay_msg):
                 gap_fill_end = msg_seq_num + 1
             else:
+                if gap_fill_begin < msg_seq_num:
+                    # numbers missing in the journal before this message are gap filled too
+                    gap_fill_end = msg_seq_num
                 if gap_fill_begin < gap_fill_end:
                     # we need to send a gap fill message
                     gap_fill_msg = FIXMessage(FMsg.SEQUENCERESET)
